@@ -60,7 +60,7 @@ def k_exit(n: int, f0: bool, f1: bool, f2: bool, f3: bool) -> str:
 
 
 AK = ['file', 'dir', 'nonexistent', 'dot', 'non-utf8', 'untrashable', 'duplicate-of-first', 'link', 'dotdot-slash', 'empty-string',
-      'unwritable-info-dir', 'crowded-name']
+      'unwritable-info-dir', 'crowded-name', 'needs-one-retry']
 NAK = len(AK)
 MODES = [([], []), (['-f'], []), (['-i'], ['y', 'n', 'y', 'n']), (['-v'], []), (['-i'], ['n', 'n', 'n', 'n']), (['-f', '-v'], []),
          (['--trash-dir', '/v/td'], [])]  # one volume-independent trash dir for arguments that live on three volumes
@@ -92,6 +92,11 @@ def arg_for(kind, pos):
         return '/w/u%d' % pos, [W.f('/w/u%d' % pos, 'U', 0o644, 1500 + pos)], '/w/u%d' % pos
     if k == 'empty-string':
         return '', [], None
+    if k == 'needs-one-retry':
+        # the first .trashinfo name is taken by a lone info file (left by an interrupted run): one EEXIST, then <name>_1 works
+        nm = 'rt%d' % pos
+        return d + '/' + nm, [W.d(d), W.f(d + '/' + nm, 'RT%d' % pos, 0o644, 1800 + pos), W.d('/v/.Trash-1000/files', 0o700),
+                              W.f('/v/.Trash-1000/info/' + nm + '.trashinfo', K.info_text('old/' + nm, '2019-01-01T00:00:00'), 0o600, 3400 + pos)], d + '/' + nm
     if k == 'crowded-name':
         # 100 entries called cr, cr_1 .. cr_99 are already in the trash dir of /v: the next one needs a random suffix
         nodes = [W.d(d), W.f(d + '/cr', 'CR%d' % pos, 0o644, 1700 + pos)]
@@ -172,7 +177,7 @@ def _case(n, k0, k1, k2, k3, mode):
             if interactive and reply_for.get(a):
                 reply = reply_for[a].pop(0)
             declined = interactive and reply is not None and not reply[:1] in ('y', 'Y')
-            if k in ('file', 'dir', 'link', 'crowded-name'):
+            if k in ('file', 'dir', 'link', 'crowded-name', 'needs-one-retry'):
                 if interactive and reply is None:
                     return rt.fail('C16:not-asked-under-i:%s' % k, 'argument %r of %r was not asked about; stdout %r' % (a, args, r['out'][-300:]))
                 expect.append(('untouched', False) if declined else ('trashed', False))
@@ -192,7 +197,7 @@ def _case(n, k0, k1, k2, k3, mode):
             if want_out is not None and not first_of_dup and got != want_out:
                 return rt.fail('C16:outcome:%s' % AK[kind], 'argument %d (%r, %s) of %r under %r: %s, expected %s; stderr %r' % (
                     pos, a, AK[kind], args, opts, got, want_out, r['err'][-300:]))
-            if AK[kind] in ('file', 'dir', 'link', 'non-utf8', 'untrashable', 'nonexistent', 'unwritable-info-dir', 'crowded-name'):
+            if AK[kind] in ('file', 'dir', 'link', 'non-utf8', 'untrashable', 'nonexistent', 'unwritable-info-dir', 'crowded-name', 'needs-one-retry'):
                 my_stdin = []
                 if interactive and want_out is not None:
                     my_stdin = ['n'] if (want_out == 'untouched' and not want_fail) else ['y']
@@ -216,7 +221,7 @@ def _case(n, k0, k1, k2, k3, mode):
 
 
 def third_full():
-    """thorough tier (PARTITION = (k0, True)): the third argument ranges over all 12 kinds, else over 6 of them"""
+    """thorough tier (PARTITION = (k0, True)): the third argument ranges over all 13 kinds, else over 6 of them"""
     return bool(PARTITION is not None and PARTITION[1])
 
 
@@ -229,7 +234,7 @@ def w_lists(n: int, k0: int, k1: int, k2: int, mode: int) -> str:
     nn = rt.sel(n, 4)
     # (selectors of positions the list does not have are not branched on)
     b = rt.sel(k1, NAK) if nn >= 2 else 0
-    c = (rt.sel(k2, NAK) if third_full() else rt.of([0, 2, 4, 6, 9, 11], k2)) if nn >= 3 else 0
+    c = (rt.sel(k2, NAK) if third_full() else rt.of([0, 2, 4, 6, 10, 12], k2)) if nn >= 3 else 0
     return _case(nn, rt.sel(k0, NAK), b, c, 0, rt.sel(mode, NMODE))
 
 
@@ -239,7 +244,7 @@ def w_lists4(k0: int, k1: int, k2: int, k3: int, mode: int) -> str:
     pre: 0 <= k0 < NAK and 0 <= k1 < NAK and 0 <= k2 < NAK and 0 <= k3 < 6 and 0 <= mode < NMODE
     post: _ == ''
     """
-    return _case(4, rt.sel(k0, NAK), rt.sel(k1, NAK), rt.sel(k2, NAK), rt.of([0, 2, 4, 6, 9, 11], k3), rt.sel(mode, NMODE))
+    return _case(4, rt.sel(k0, NAK), rt.sel(k1, NAK), rt.sel(k2, NAK), rt.of([0, 2, 4, 6, 10, 12], k3), rt.sel(mode, NMODE))
 
 
 def obligations(tier):
@@ -248,9 +253,9 @@ def obligations(tier):
            encodes=['Context.trash_each', 'TrashPutReporter.exit_code', 'TrashAllResult.any_failure'],
            stubs=['SingleTrasher -> symbolic results'], bounds='0..4 arguments, every failure pattern'),
         CH('W_argument_lists_up_to_3', MOD, 'w_lists', timeout=2400, partitions=[(k, tier == 'thorough') for k in range(NAK)], engine='W', regime='selector',
-           encodes=K.PUT_FUNCS, stubs=K.STUBS, bounds='lists of 1..3 arguments x 12 argument kinds per position (third position: %s) x 7 option sets' % ('12 kinds' if tier == 'thorough' else '6 kinds: 0 2 4 6 9 11')),
+           encodes=K.PUT_FUNCS, stubs=K.STUBS, bounds='lists of 1..3 arguments x 13 argument kinds per position (third position: %s) x 7 option sets' % ('13 kinds' if tier == 'thorough' else '6 kinds: 0 2 4 6 10 12')),
     ]
     if tier == 'thorough':
         obs.append(CH('W_argument_lists_of_4', MOD, 'w_lists4', timeout=7000, partitions=list(range(NAK)), twin=False, engine='W',
-                      regime='selector', encodes=K.PUT_FUNCS, stubs=K.STUBS, bounds='lists of 4 arguments: 12 kinds for the first three positions, 6 for the fourth, x 7 option sets'))
+                      regime='selector', encodes=K.PUT_FUNCS, stubs=K.STUBS, bounds='lists of 4 arguments: 13 kinds for the first three positions, 6 for the fourth, x 7 option sets'))
     return obs
